@@ -15,7 +15,7 @@ def run(res, only=None):
     os.makedirs(wd, exist_ok=True)
     a = os.path.join(wd, "nopanic.out")
     res.add_tlc(core.run_tlc("MC_C18", res.tier, a, workers=8, extra_constants={"Seed": res.seed % 97}))
-    core.replay_bin(res, "safe", a, cfgs, expect_ops=TYPES, tag="nopanic", sanitizer_prop="C18")
+    core.replay_bin(res, "safe", a, cfgs, expect_ops=TYPES, tag="nopanic", sanitizer_prop="C18", env_extra={"HX_SEED": str(res.seed)})
     b = os.path.join(wd, "slices.out")
     res.add_tlc(core.run_tlc("MC_C18b", res.tier, b, workers=4))
     expect = [f"{k}:{c}" for k in ("write", "from") for c in ("vec2", "vec3", "vec4", "quat", "mat2", "mat3", "mat4", "aff2", "aff3")] + \
@@ -23,7 +23,8 @@ def run(res, only=None):
     core.replay_bin(res, "safe", b, cfgs, expect_ops=expect, tag="slices", sanitizer_prop="C18")
     res.rule = ("no-panic: 839 public float functions of 20 types (table tools/gen_c18.py, shared by specification and harness) x every "
                 "argument slot x {all lanes, each single lane/entry} x 9 special values (0, -0, subnormal, 2^-80, 2^70, +-inf, NaN, MAX) plus "
-                "8 special pairs in every pair of slots; slices: every class (vec2/3/4 of all 11 scalar families, quat, mat2/3/3A/4, affine) "
+                "8 special pairs in every pair of slots, plus 6 (quick) / 96 (thorough) draws with EVERY slot filled from a seeded pseudo-random mix "
+                "of finite, special and arbitrary bit patterns; slices: every class (vec2/3/4 of all 11 scalar families, quat, mat2/3/3A/4, affine) "
                 "x from/write x every length 0..N+4 as exactly-sized heap allocations of canary tokens (panic iff short, destination untouched "
                 "on panic, exactly N elements read/written); Index/IndexMut/col/col_mut/row/minor for indices 0..N+2 and usize::MAX; all of it "
                 "also in a nightly AddressSanitizer build (a sanitizer report is a violation).")
